@@ -46,6 +46,9 @@ BadSplit(e) ==
           THEN T(~(Len(parts) = 1 /\ parts[1] = (IF kind = "gsm7p" THEN Pack(u) ELSE u))
                    /\ (FullySpecified(kind) \/ Len(parts) # 1), "C06.single")
                \cup T(~FullySpecified(kind) /\ e.dec # e.text, "C06.preserves")
+               \* a message that fits is one part of at most 140 octets
+               \* (unpacked GSM 7-bit travels as one octet per septet: 160)
+               \cup T(Len(parts) = 1 /\ Len(parts[1]) > (IF kind = "gsm7u" THEN 160 ELSE 140), "C07.partsize")
           ELSE IF ~multi THEN {"C07.fits"}
           ELSE
                T(~HeadersOK(parts, e.ref) /\ greedy <= MaxParts, "C07.header")
